@@ -351,6 +351,39 @@ pub fn run(cx: &mut Cx) {
     }
     cx.ev.max("max/real_name_strings", i);
 
+    // (b3) paths that collide under common fast hash functions (a memo of
+    // parsed paths that trusts a hash instead of comparing the text): the
+    // first, the second, the first again
+    if matches!(cx.tier, Tier::Quick | Tier::Thorough) && cx.mine(7) {
+        let make = |i: usize| {
+            let mut v = crate::rng::Rng::new(i as u64).next();
+            let mut s = String::from(if v & 1 == 0 { "../../" } else { "" });
+            v >>= 1;
+            for k in 0..11 {
+                if k == 4 {
+                    s.push('/');
+                }
+                s.push(b"abcdefghijklmnopqrstuvwxyz012345"[(v % 32) as usize] as char);
+                v /= 32;
+            }
+            s
+        };
+        let found = crate::gen::collide::pairs(6_000_000, 4, &make);
+        cx.ev.add("hash-collisions/pairs", found.len() as u64);
+        for (proj, a, b) in &found {
+            for s in [a, b, a] {
+                cx.check(
+                    || format!("paths colliding under {proj}: {s:?} (pair {a:?} / {b:?})"),
+                    |ev| {
+                        ev.count("workload/hash-collisions");
+                        check_path_inner(ev, s)?;
+                        check_depend(ev, &format!("foo-[0-9]*:{s}"))
+                    },
+                );
+            }
+        }
+    }
+
     // (c) Depend: every pattern x path x colon form
     let stride = if cx.tier == Tier::Mini { 24u64 } else { 1 };
     let mut i = 0u64;
